@@ -321,3 +321,27 @@ def load_findings():
     if not os.path.exists(p):
         return []
     return json.load(open(p)).get("findings", [])
+
+
+def replay_generic(ctx, path):
+    """Show a recorded violation; if it carries a journal (`history`) and names a native driver,
+    re-judge the journal with the driver built from the current Lean sources."""
+    r = json.load(open(path))
+    print("property=%s what=%s" % (r.get("property"), r.get("what")))
+    for k in ("harness_args", "replay_cmd", "witness", "input"):
+        if k in r:
+            print("%s: %s" % (k, r[k]))
+    hist = r.get("history")
+    drv = r.get("driver")
+    if hist and drv:
+        exe = ctx.ensure_pplv(drv)
+        p = subprocess.run([exe] + list(r.get("driver_args", [])), input="\n".join(hist) + "\n", text=True, capture_output=True)
+        bad = [l for l in p.stdout.splitlines() if l.startswith("MISMATCH")]
+        print("\n".join(hist[-12:]))
+        print("\n".join(bad) if bad else "no mismatch when re-judged")
+        if bad:
+            print("VIOLATION property=%s replay=%s" % (ctx.pid, path))
+            return 1
+        return 0
+    print(json.dumps(r, indent=1)[:4000])
+    return 0
